@@ -115,6 +115,9 @@ fn in_loop2(n: int) -> int { let i = 0; loop { if i * i >= n { return i; } i += 
 fn in_match(k: int) -> str { match k { 1 => { return "one"; }, 2 => "two", _ => "many" } }
 fn in_try(a: int) -> int { try { if a > 0 { return a; } throw("neg"); } catch e { return 0 - 1; } }
 fn caught(s: str) -> str { try { throw(s); "no" } catch e { e.message } }
+fn checked(x: int) -> int { if x > 10 { throw("too big"); } x * 2 }
+fn ret_try(a: int) -> int { counter = counter + 1; try { return checked(a); } catch e { return 0 - 1; } }
+fn ret_try_loop(a: int) -> int { try { try { for i in 0..3 { return checked(a + i); } } catch e { throw("again"); } } catch f { return 0 - 2; } 0 }
 fn nested_call(a: int, b: int) -> int { sub(b, a) * 2 + enc3(a, b, 0) }
 fn fact(n: int) -> int { if n <= 1 { 1 } else { n * fact(n - 1) } }
 fn sing(c: $Cfg, a: int, b: int) -> int { c.base + a * 10 + b }
@@ -205,6 +208,11 @@ def _in_loop2(a, g):
     return ok(I(i))
 
 
+def _ret_try(a, g):
+    g["counter"] = I(g["counter"][1] + 1)
+    return ok(I(a[0][1] * 2)) if a[0][1] <= 10 else ok(I(-1))
+
+
 def _fact(a, g):
     n = a[0][1]
     r = 1
@@ -259,6 +267,9 @@ FUNCS = {
     "in_match": (["dig"], "str", lambda a, g: ok(S({1: "one", 2: "two"}.get(a[0][1], "many"))), ()),
     "in_try": (["int"], "int", lambda a, g: ok(a[0] if a[0][1] > 0 else I(-1)), ("v10",)),
     "caught": (["str"], "str", lambda a, g: ok(a[0]), ()),
+    # the operand of `return` is still inside the try: its exception is caught by the function's own handler
+    "ret_try": (["dig2"], "int", _ret_try, ("v10",)),
+    "ret_try_loop": (["dig2"], "int", lambda a, g: ok(I(a[0][1] * 2)) if a[0][1] <= 10 else ok(I(-2)), ("v10",)),
     "nested_call": (["dig", "dig"], "int",
                     lambda a, g: ok(I((a[1][1] - a[0][1]) * 2 + a[0][1] * 100 + a[1][1] * 10)), ()),
     "fact": (["dig"], "int", _fact, ()),
